@@ -995,6 +995,9 @@ func propC06(r *Run, w *World) {
 				local = AddrTerm(st.Addr)
 			}
 		}
+		if local == "" {
+			local = "p0" // pointer receiver: the rule data is read through the parameter itself
+		}
 		got := map[string]string{}
 		var bufLenSt *ssa.Store
 		var lastBufAppend *ssa.Store
@@ -1434,7 +1437,7 @@ func propC13(r *Run, w *World) {
 	}
 
 	// R3 allocations
-	r.Rule("C13.R3", "allocation is bounded by the input's size, not by numbers in it: every make() in scope has a constant size, the len() of an input-derived value, or a size proved <= a constant from dominating guards", 8)
+	r.Rule("C13.R3", "allocation is bounded by the input's size, not by numbers in it: every make() in scope has a constant size, the len() of an input-derived value, or a size proved <= a constant from dominating guards", 6)
 	for _, fn := range scope {
 		instrsOf(fn, func(in ssa.Instruction) {
 			var size ssa.Value
